@@ -11,9 +11,12 @@ def build_tool(repo, verif, name, release=False):
     os.makedirs(os.path.join(crate, 'src'), exist_ok=True)
     cargo = open(os.path.join(tool, 'Cargo.toml')).read().replace('/repo/', repo.rstrip('/') + '/')
     open(os.path.join(crate, 'Cargo.toml'), 'w').write(cargo)
-    for fn in os.listdir(os.path.join(tool, 'src')):
-        if fn.endswith('.rs'):
-            open(os.path.join(crate, 'src', fn), 'w').write(open(os.path.join(tool, 'src', fn)).read())
+    for root, _dirs, files in os.walk(os.path.join(tool, 'src')):
+        rel = os.path.relpath(root, os.path.join(tool, 'src'))
+        os.makedirs(os.path.join(crate, 'src', rel), exist_ok=True)
+        for fn in files:
+            if fn.endswith('.rs'):
+                open(os.path.join(crate, 'src', rel, fn), 'w').write(open(os.path.join(root, fn)).read())
     open(os.path.join(crate, 'Cargo.lock'), 'w').write(open(os.path.join(repo, 'Cargo.lock')).read())
     env = dict(os.environ)
     env['CARGO_TARGET_DIR'] = os.path.join(verif, '.cache', 'target')
@@ -602,6 +605,54 @@ def check_asm_full(prop, tier, repo, verif):
     res['wall_s'] = round(time.time() - t0, 1)
     cm = re.search(r'\[part3\] (\d+) library graphs, (\d+) \(graph, library order\) combinations, (\d+) compilations', p.stdout)
     res['checker_cmd'] = 'tools/asmfull %d (built against the current tree): %s' % (ngraphs, cm.group(0) if cm else '')
+    return res
+
+
+def check_trace_validate(prop, tier, repo, verif):
+    t0 = time.time()
+    step = 1 if tier == 'thorough' else 3
+    res = {'unit': 'bounded:trace_validate', 'engine': 'bounded run of the real assembler, processor and ProcessorAir with winter-prover\'s own Trace::validate (tools/tracecheck, adapted from the C03 sub-agent\'s demo; release build)', 'status': 'ok',
+           'failures': [], 'undecided': [], 'bounded': True,
+           'bound': '%s of 11234 generated programs in 16 families (every instruction reachable from assembly with boundary operands in every position, immediates, stack manipulation, io, crypto incl. Merkle operations on advice-provided stores, 0..40 elements through the overflow table across spans / loops / calls / syscalls, control flow, kernels with 0 / 1 / several procedures, memory accesses over 8 boundary addresses x root / call / nested call / syscall contexts x clock gaps from 1 to > 2^16, range-checker tables with small / large / maximal gaps, chiplet-dominated traces, cycle / range / chiplet lengths at 2^k - 3 .. 2^k + 2 for k = 6..12, stdlib procedures, 400 seeded random programs); each executed with expected-cycle hints 64, 0, 2^10, 2^16 (same length and main segment required); trace-length clause checked directly (power of two, minimal, >= cycles + 1 / range table / chiplet rows + random row); ProcessorAir built from the trace info and the public inputs, auxiliary segment built for 2-3 pseudo-random challenge vectors in the quadratic extension, every boundary assertion and every transition constraint (main and auxiliary) evaluated on every non-exempt row' % ('all' if step == 1 else 'every 3rd')}
+    binp, err = build_tool(repo, verif, 'tracecheck', release=True)
+    if binp is None:
+        res['status'] = 'undecided'
+        res['undecided'].append('tracecheck does not build against the current tree: ' + err)
+        return res
+    env = dict(os.environ)
+    env['DEMO_THREADS'] = '10'
+    env['DEMO_STEP'] = str(step)
+    try:
+        p = subprocess.run([binp], stdout=subprocess.PIPE, stderr=subprocess.PIPE, text=True, env=env, timeout=7200)
+    except subprocess.TimeoutExpired:
+        res['status'] = 'undecided'
+        res['undecided'].append('tracecheck timed out')
+        return res
+    m = re.search(r'SUMMARY programs=(\d+) validated=(\d+) failures=(\d+) undefined_u32=(\d+) known=(\d+) exec_errors=(\d+) panics=(\d+)', p.stdout)
+    if not m:
+        res['status'] = 'undecided'
+        res['undecided'].append('tracecheck gave no summary (panic?): ' + (p.stdout + p.stderr)[-500:])
+        return res
+    seen = set()
+    for ln in p.stdout.split('\n'):
+        mm = re.match(r'FAILCASE (\S+) :: (.*?) :: (.*?) :: (.*)', ln)
+        if not mm:
+            continue
+        family, name, msg, rest = mm.groups()
+        cons = re.search(r'(main|auxiliary) transition constraint (\d+)|assertion (main|aux)_trace\((\d+)|trace length|hint', msg)
+        key = '%s:%s' % (family, re.sub(r'[^A-Za-z0-9]+', '-', cons.group(0) if cons else msg[:40]).strip('-'))
+        if key in seen or len(seen) > 40:
+            continue
+        seen.add(key)
+        res['failures'].append({'obligation': '%s/bounded/trace_validate#%s' % (prop, key), 'message': 'the honest trace of a successful execution violates the AIR / the trace-length clause: [%s] %s: %s' % (family, name[:200], msg[:300]),
+                                'rendered': ln[:1800], 'origins': ['processor/src/trace', 'processor/src/operations', 'processor/src/stack', 'processor/src/range', 'processor/src/chiplets', 'processor/src/decoder', 'processor/src/system/mod.rs', 'air/src'],
+                                'failing_input': {'family': family, 'case': name[:300], 'violation': msg[:400], 'program_and_inputs': rest[:1600], 'cmd': 'DEMO_FILTER=<family> .cache/target/release/tracecheck'}})
+    if int(m.group(3)) and not [f for f in res['failures'] if not re.search(r'#(undefined-u32|known)', f['obligation'])]:
+        res['failures'].append({'obligation': '%s/bounded/trace_validate#failures' % prop, 'message': '%s failing programs' % m.group(3), 'rendered': p.stdout[-800:], 'origins': []})
+    if res['failures']:
+        res['status'] = 'fail'
+    res['wall_s'] = round(time.time() - t0, 1)
+    res['checker_cmd'] = 'DEMO_STEP=%d tools/tracecheck (built against the current tree): %s programs, %s traces validated, %s executions returned an error (outside the property)' % (step, m.group(1), m.group(2), m.group(6))
     return res
 
 
